@@ -154,6 +154,15 @@ pub struct ReaderBench {
   _pstatus_rx: StatusChannelReceiver<DomainParticipantStatusEvent>,
   _cmd_keepalive: Option<mio_channel::SyncSender<ReaderCommand>>,
   topic_cache: Arc<Mutex<TopicCache>>,
+  /// further readers on the same topic (same TopicCache, same MessageReceiver), as a participant with several
+  /// DataReaders on one topic has them
+  siblings: Vec<Sibling>,
+}
+
+struct Sibling {
+  cons: ConsumerSide,
+  reader_eid: EntityId,
+  _pstatus_rx: StatusChannelReceiver<DomainParticipantStatusEvent>,
 }
 
 thread_local! {
@@ -258,7 +267,9 @@ impl ReaderBench {
     Self::build(cfg, None)
   }
 
-  fn build(cfg: RbCfg, qos_override: Option<QosPolicies>) -> ReaderBench {
+  /// One Reader + DataReader pair on `topic_cache` (a fresh one if None), wired as Subscriber::create_*datareader wires them.
+  #[allow(clippy::type_complexity)]
+  fn make_reader(cfg: &RbCfg, qos_override: Option<QosPolicies>, shared_cache: Option<Arc<Mutex<TopicCache>>>) -> (Reader, Dr, EntityId, StatusChannelReceiver<DomainParticipantStatusEvent>, Arc<Mutex<TopicCache>>) {
     let e = env();
     let keyed = matches!(cfg.flavor, Flavor::Keyed | Flavor::Simple);
     let topic = TOPICS.with(|t| if keyed { t.0.clone() } else { t.1.clone() });
@@ -283,9 +294,14 @@ impl ReaderBench {
     }
     let qos = qos_override.unwrap_or_else(|| qb.build());
 
-    // fresh topic cache per bench (same construction as DDSCache::add_new_topic)
-    let mut ddsc = DDSCache::new();
-    let topic_cache = ddsc.add_new_topic(topic.name(), topic.get_type(), &topic.qos());
+    // fresh topic cache per bench (same construction as DDSCache::add_new_topic), or the one of the sibling
+    let topic_cache = match shared_cache {
+      Some(tc) => tc,
+      None => {
+        let mut ddsc = DDSCache::new();
+        ddsc.add_new_topic(topic.name(), topic.get_type(), &topic.qos())
+      }
+    };
     topic_cache.lock().unwrap().update_keep_limits(&qos);
 
     let kind = if keyed {
@@ -374,6 +390,12 @@ impl ReaderBench {
       }
     };
 
+    (reader, dr, reader_eid, pstatus_rx, topic_cache)
+  }
+
+  fn build(cfg: RbCfg, qos_override: Option<QosPolicies>) -> ReaderBench {
+    let e = env();
+    let (reader, dr, reader_eid, pstatus_rx, topic_cache) = Self::make_reader(&cfg, qos_override, None);
     let (acknack_tx, acknack_rx) = mio_channel::sync_channel(64);
     let (spdp_tx, spdp_rx) = mio_channel::sync_channel(64);
     let mut mr = MessageReceiver::new(e.dp.guid_prefix(), acknack_tx, spdp_tx, None);
@@ -393,7 +415,44 @@ impl ReaderBench {
       _pstatus_rx: pstatus_rx,
       _cmd_keepalive: None,
       topic_cache,
+      siblings: vec![],
     }
+  }
+
+
+  /// Adds another reader on the same topic: same TopicCache, same MessageReceiver. Returns its index.
+  /// `transient_local`: the sibling requests Durability TransientLocal (it wants what existed before it), else Volatile.
+  pub fn add_sibling(&mut self, flavor: Flavor, reliable: bool, transient_local: bool, reader_key: [u8; 3]) -> usize {
+    let cfg = RbCfg { flavor, reliable, history: self.cfg.history, max_samples: self.cfg.max_samples, reader_key };
+    let mut qb = QosPolicyBuilder::new()
+      .reliability(if reliable { policy::Reliability::Reliable { max_blocking_time: crate::Duration::from_millis(100) } } else { policy::Reliability::BestEffort })
+      .durability(if transient_local { policy::Durability::TransientLocal } else { policy::Durability::Volatile });
+    match cfg.history {
+      0 => qb = qb.history(policy::History::KeepAll),
+      n if n > 0 => qb = qb.history(policy::History::KeepLast { depth: n }),
+      _ => {}
+    }
+    if cfg.max_samples > 0 {
+      qb = qb.resource_limits(policy::ResourceLimits { max_samples: cfg.max_samples, max_instances: cfg.max_samples, max_samples_per_instance: cfg.max_samples });
+    }
+    let (reader, dr, reader_eid, pstatus_rx, _tc) = Self::make_reader(&cfg, Some(qb.build()), Some(self.topic_cache.clone()));
+    self.mr.add_reader(reader);
+    self.siblings.push(Sibling { cons: ConsumerSide { flavor, dr, waker_flag: Arc::new(FlagWaker(Default::default())) }, reader_eid, _pstatus_rx: pstatus_rx });
+    self.siblings.len() - 1
+  }
+  pub fn sibling_entity_id(&self, idx: usize) -> [u8; 4] {
+    self.siblings[idx].reader_eid.to_slice()
+  }
+  pub fn sibling_match_writer(&mut self, idx: usize, guid: [u8; 16], reliable: bool, reply_to: SocketAddr) {
+    let proxy = RtpsWriterProxy::new(GUID::from_bytes(guid), vec![Locator::from(reply_to)], vec![], EntityId::UNKNOWN);
+    let q = QosPolicyBuilder::new()
+      .reliability(if reliable { policy::Reliability::Reliable { max_blocking_time: crate::Duration::from_millis(100) } } else { policy::Reliability::BestEffort })
+      .build();
+    let eid = self.siblings[idx].reader_eid;
+    self.mr.reader_mut(eid).unwrap().update_writer_proxy(proxy, &q);
+  }
+  pub fn sibling_op(&mut self, idx: usize, op: &ReadOp) -> Result<Vec<Obs>, String> {
+    self.siblings[idx].cons.op(op)
   }
 
   pub fn reader_entity_id(&self) -> [u8; 4] {
@@ -463,7 +522,7 @@ impl ReaderBench {
 
   /// Separate the application's half from the Reader's half (which is not Send).
   pub fn split(self) -> (ProducerSide, ConsumerSide) {
-    let ReaderBench { cfg, mr, cons, reader_eid, own_prefix, acknack_rx, _spdp_rx, _pstatus_rx, _cmd_keepalive, topic_cache } = self;
+    let ReaderBench { cfg, mr, cons, reader_eid, own_prefix, acknack_rx, _spdp_rx, _pstatus_rx, _cmd_keepalive, topic_cache, siblings: _ } = self;
     (ProducerSide { cfg, mr, reader_eid, own_prefix, _acknack_rx: acknack_rx, _spdp_rx, _pstatus_rx, _cmd_keepalive, _topic_cache: topic_cache }, cons)
   }
 }
